@@ -156,6 +156,7 @@ private:
     static void initializeDOMHeap (XMLSize_t initialHeapAllocSize,
                                    XMLSize_t maxHeapAllocSize,
                                    XMLSize_t maxSubAllocationSize);
+    static void terminateDOMHeap ();
 };
 
 
